@@ -120,6 +120,11 @@ def loop_shape(fb, chk, rule, f, inner_name, counter_desc):
                             bad_retry.append("%s%s" % ("not " if a[3] else "", sorted(names)))
                         else:
                             retry_ok = True
+                            # ... and the retry is unconditional: once the error is known to be of the retry class, no
+                            # path returns without trying again (whether or not part of the message was already transferred)
+                            heads_ = {h_ for (t_, h_) in cfg.back_edges() if bb in cfg.reach(h_) and h_ in cfg.reach(bb)}
+                            if cfg.reach(s, removed=heads_ | {bb}) & set(cfg.returns):
+                                bad_retry.append("SocketRetry is given up on some path (returned instead of retried)")
     # every way back to the call from the Err edge passes an error-class switch
     chk.check(retry_ok and not bad_retry, rule, f.name + ":retry", "only the SocketRetry class re-iterates; other errors return",
               "%s re-iterates the loop for error classes %s (only SocketRetry may be retried)" % (f.short, bad_retry or "none found"), f.loc())
